@@ -76,8 +76,18 @@ impl Parseable for GlobalOption {
     fn parse(input: &mut &'_ str) -> PResult<GlobalOption> {
         alt((
             literal("-depth").value(GlobalOption::Depth),
-            unary!("-maxdepth", GlobalOption::MaxDepth, u32::parse),
-            unary!("-mindepth", GlobalOption::MinDepth, u32::parse),
+            // Disabled in LiPE: RunOptions has nowhere to record these, so they are rejected here
+            // instead of reaching RunOptions::update
+            unary!(
+                "-maxdepth",
+                GlobalOption::MaxDepth,
+                fail.context(expected("disabled_option"))
+            ),
+            unary!(
+                "-mindepth",
+                GlobalOption::MinDepth,
+                fail.context(expected("disabled_option"))
+            ),
             unary!("-threads", GlobalOption::Threads, u32::parse),
         ))
         .context(label("global_option"))
